@@ -61,7 +61,20 @@ func Open(driverName, dsn string) (*DB, error) {
 	}
 	w.DBOpened(proc)
 	c := &connector{w: w, proc: proc, host: host}
-	return real.NewDb(sql.OpenDB(c), driverName), nil
+	db := sql.OpenDB(c)
+	handles = append(handles, db)
+	return real.NewDb(db, driverName), nil
+}
+
+var handles []*sql.DB
+
+// CloseAll closes every handle opened since the last call (harness teardown: a process that
+// exits takes its connection-opener goroutines with it; a bubble needs them gone explicitly).
+func CloseAll() {
+	for _, db := range handles {
+		_ = db.Close()
+	}
+	handles = nil
 }
 
 type connector struct {
